@@ -45,7 +45,7 @@ func split(ctx context.Context, r io.Reader) (<-chan string, <-chan error) {
 			}
 		}
 		if err := sc.Err(); err != nil {
-			errc <- err
+			sendErr(ctx, errc, err)
 			return
 		}
 		select {
@@ -57,6 +57,15 @@ func split(ctx context.Context, r io.Reader) (<-chan string, <-chan error) {
 	}()
 
 	return blockc, errc
+}
+
+// sendErr reports err unless the pipeline has already been cancelled,
+// so that no worker stays blocked on an error channel nobody reads any more.
+func sendErr(ctx context.Context, errc chan<- error, err error) {
+	select {
+	case errc <- err:
+	case <-ctx.Done():
+	}
 }
 
 func isRootBlockBeginning(l string, sharpRoot bool) bool {
